@@ -436,6 +436,18 @@ func c03ChokedRun(capPath string) (viols []seamViol, err error) {
 		}
 		got <- sb.String()
 	}()
+	/* While the terminal is being read out the shell goes on talking: a
+	program that gave up on the terminal shows none of that, one that
+	carries on must not have left a hole before it. */
+	time.Sleep(100 * time.Millisecond)
+	for i := 6; i < 9; i++ {
+		s := fmt.Sprintf("<chunk %02d>%s\n", i, strings.Repeat(string(rune('a'+i)), 600))
+		want += strings.ReplaceAll(s, "\n", "\r\n")
+		select {
+		case ts.och <- opshell.CLine{Plain: true, Line: s}:
+		default:
+		}
+	}
 	/* Half a second of reading out, then the terminal is gone. */
 	time.Sleep(500 * time.Millisecond)
 	os.Stdout = ts.capture
